@@ -89,7 +89,7 @@ func resultValue(vals []Value, n int) Value {
 func (x *exec) callFunc(s *State, fn *ssa.Function, args []Value, bind []Value, pos token.Pos) Value {
 	x.beforeCallAsserts(s, FuncKey(fn), pos)
 	r := x.callFunc1(s, fn, args, bind, pos)
-	x.afterCall(s, fn, args)
+	x.afterCall(s, fn, args, r)
 	return r
 }
 
@@ -119,7 +119,7 @@ func (x *exec) beforeCallAsserts(s *State, key string, pos token.Pos) {
 // afterCall applies the "atcall" ghost updates of the contract under verification:
 //
 //	//@ atcall (*Piece).setState :: oldstate == 0 && state == 2 :: Ghost_own = true
-func (x *exec) afterCall(s *State, fn *ssa.Function, args []Value) {
+func (x *exec) afterCall(s *State, fn *ssa.Function, args []Value, result Value) {
 	e := x.e
 	t := x.topExec()
 	if t.contract == nil || s.pc.IsFalse() {
@@ -155,6 +155,14 @@ func (x *exec) afterCall(s *State, fn *ssa.Function, args []Value) {
 			}
 			env := x.calleeEnv(s, s, cs, args)
 			env.info = be.info
+			// $r0.. name the results of the call just made
+			switch rv := result.(type) {
+			case nil:
+			case TupleV:
+				env.res = []Value(rv)
+			default:
+				env.res = []Value{rv}
+			}
 			return env.eval(be.expr)
 		}
 		cond, ok1 := ev(parts[1], "#cond").(*Term)
